@@ -219,6 +219,16 @@ def tests_of(body):
         if dty == "bool":
             l = op_local(t["discr"])
             if l is None:
+                # a field of a tuple built by one aggregate statement (match on (a, b)): test the component
+                pl = core.op_place(t["discr"])
+                if pl is not None and len(pl["proj"]) == 1 and pl["proj"][0]["k"] == "field":
+                    ds = body.defs().get(pl["local"], [])
+                    if len(ds) == 1 and ds[0][0] == "assign" and ds[0][3]["rv"]["k"] == "aggregate" and ds[0][3]["rv"].get("akind") == "tuple":
+                        ops = ds[0][3]["rv"]["ops"]
+                        idx = pl["proj"][0]["idx"]
+                        if idx < len(ops):
+                            l = op_local(ops[idx])
+            if l is None:
                 continue
             cond, neg = _bool_def(body, l, i, atoms)
             f = m.get(0, m["otherwise"])
